@@ -46,12 +46,24 @@ impl RawValue {
         }
     }
 
-    pub fn get_value(&self) -> JValue {
+    /// Returns the parsed value or a error if the raw text, which could come from untrusted data,
+    /// is not a valid JSON.
+    pub fn try_get_value(&self) -> Result<JValue, serde_json::Error> {
         let mut parsed_guard = self.parsed.borrow_mut();
 
-        let parsed_value = parsed_guard
-            .get_or_insert_with(|| serde_json::from_str(&self.raw).expect("TODO handle error"));
-        parsed_value.clone()
+        if let Some(parsed_value) = parsed_guard.as_ref() {
+            return Ok(parsed_value.clone());
+        }
+
+        let parsed_value: JValue = serde_json::from_str(&self.raw)?;
+        *parsed_guard = Some(parsed_value.clone());
+        Ok(parsed_value)
+    }
+
+    /// Panics if the raw text is not a valid JSON; use `try_get_value` for values from untrusted data.
+    pub fn get_value(&self) -> JValue {
+        self.try_get_value()
+            .expect("raw value should be a valid JSON")
     }
 
     pub(crate) fn as_inner(&self) -> &str {
@@ -67,7 +79,10 @@ impl From<JValue> for RawValue {
 
 impl PartialEq for RawValue {
     fn eq(&self, other: &Self) -> bool {
-        self.get_value() == other.get_value()
+        match (self.try_get_value(), other.try_get_value()) {
+            (Ok(value), Ok(other_value)) => value == other_value,
+            _ => self.raw == other.raw,
+        }
     }
 }
 
